@@ -54,3 +54,192 @@ fn c08_release_date_header() {
     core::mem::forget(r);
     core::mem::forget(b);
 }
+
+// ---------------------------------------------------------------------------------------------
+// C01 / C15: add_parent
+// ---------------------------------------------------------------------------------------------
+fn none() -> HpoGroup {
+    HpoGroup::default()
+}
+fn tid(n: u32) -> HpoTermId {
+    HpoTermId::from_u32(n)
+}
+fn is_subset_of(g: &HpoGroup, ids: &[u32], mask: u8) -> bool {
+    crate::ontology::verif_kani::group_is_subset(g, ids, mask)
+}
+
+/// `add_parent(p, c)` on a builder holding the terms 1 and 2 (ids 5 and 6 are absent), with a
+/// symbolic pre-state of the relation groups. PP / CP: is the parent / child id present.
+///  - Ok iff both present; then exactly `c` joined children(p) and `p` joined parents(c);
+///  - Err(DoesNotExist) otherwise and then NO group of any term changed (C15);
+///  - in every case nothing else is touched (C01: child relation is the exact inverse).
+fn add_parent_h<const PP: bool, const CP: bool>(unchecked: bool) {
+    let mut b: Builder<AllTerms> = small_builder(16, 3);
+    // candidate ids, ascending: children(1) ⊆ {2,3,6}, parents(2) ⊆ {1,4,5}
+    let kids: [u32; 3] = [2, 3, 6];
+    let pars: [u32; 3] = [1, 4, 5];
+    let mk: u8 = kani::any();
+    let mp: u8 = kani::any();
+    kani::assume(mk < 8 && mp < 8);
+    b.hpo_terms.insert(term_lean(1, none(), none(), subset(&kids, mk)));
+    b.hpo_terms.insert(term_lean(2, subset(&pars, mp), none(), none()));
+    let p: u32 = if PP { 1 } else { 5 };
+    let c: u32 = if CP { 2 } else { 6 };
+    let ok = if unchecked {
+        b.add_parent_unchecked(p, c);
+        true
+    } else {
+        let r = b.add_parent(p, c);
+        let ok = r.is_ok();
+        if !ok {
+            assert!(matches!(r, Err(HpoError::DoesNotExist)));
+        }
+        core::mem::forget(r);
+        ok
+    };
+    assert!(ok == (PP && CP), "Ok iff both terms exist");
+    let t1 = b.hpo_terms.get(tid(1)).unwrap();
+    let t2 = b.hpo_terms.get(tid(2)).unwrap();
+    if ok {
+        // c == 2 joined children(1); p == 1 joined parents(2)
+        assert!(is_subset_of(t1.children(), &kids, mk | 0b001), "child recorded on the parent");
+        assert!(is_subset_of(t2.parents(), &pars, mp | 0b001), "parent recorded on the child");
+        kani::cover!(mk & 1 == 0 && mp & 1 == 0, "new link");
+        kani::cover!(mk & 1 == 1 && mp & 1 == 1, "link already present");
+    } else {
+        assert!(is_subset_of(t1.children(), &kids, mk), "rejected call: children of the parent unchanged");
+        assert!(is_subset_of(t2.parents(), &pars, mp), "rejected call: parents of the child unchanged");
+        kani::cover!(mk != 0 && mp != 0, "rejected call on a populated builder");
+    }
+    assert!(t1.parents().is_empty() && t1.all_parents().is_empty(), "nothing else touched (term 1)");
+    assert!(t2.children().is_empty() && t2.all_parents().is_empty(), "nothing else touched (term 2)");
+    assert!(b.hpo_terms.len() == 2, "no term created");
+    core::mem::forget(b);
+}
+
+#[kani::proof]
+#[kani::stub(std::hash::RandomState::new, stub_random_state)]
+#[kani::unwind(6)]
+fn c15_add_parent_both_present() {
+    add_parent_h::<true, true>(false);
+}
+#[kani::proof]
+#[kani::stub(std::hash::RandomState::new, stub_random_state)]
+#[kani::unwind(6)]
+fn c15_add_parent_child_absent() {
+    add_parent_h::<true, false>(false);
+}
+#[kani::proof]
+#[kani::stub(std::hash::RandomState::new, stub_random_state)]
+#[kani::unwind(6)]
+fn c15_add_parent_parent_absent() {
+    add_parent_h::<false, true>(false);
+}
+#[kani::proof]
+#[kani::stub(std::hash::RandomState::new, stub_random_state)]
+#[kani::unwind(6)]
+fn c15_add_parent_both_absent() {
+    add_parent_h::<false, false>(false);
+}
+#[kani::proof]
+#[kani::stub(std::hash::RandomState::new, stub_random_state)]
+#[kani::unwind(6)]
+fn c01_add_parent_unchecked() {
+    add_parent_h::<true, true>(true);
+}
+#[kani::proof]
+#[kani::stub(std::hash::RandomState::new, stub_random_state)]
+#[kani::unwind(6)]
+fn c01_add_parent_inverse_relation() {
+    add_parent_h::<true, true>(false);
+}
+
+// ---------------------------------------------------------------------------------------------
+// C15: annotate_* with a present / absent term
+// ---------------------------------------------------------------------------------------------
+#[derive(Clone, Copy)]
+enum Kind {
+    Gene,
+    Omim,
+    Orpha,
+}
+
+/// builder with the single term 3 (no ancestors), empty record maps; annotate record 7 "x" to
+/// term 3 (present) or 9 (absent)
+fn annotate_h<const PRESENT: bool>(kind: Kind) {
+    let mut b: Builder<ConnectedTerms> = small_builder(16, 2);
+    b.hpo_terms.insert(term_lean(3, none(), none(), none()));
+    let t: u32 = if PRESENT { 3 } else { 9 };
+    let r = match kind {
+        Kind::Gene => b.annotate_gene(GeneId::from(7u32), "x", tid(t)),
+        Kind::Omim => b.annotate_omim_disease(OmimDiseaseId::from(7u32), "x", tid(t)),
+        Kind::Orpha => b.annotate_orpha_disease(OrphaDiseaseId::from(7u32), "x", tid(t)),
+    };
+    let ok = r.is_ok();
+    core::mem::forget(r);
+    assert!(ok == PRESENT, "Ok iff the term exists");
+    let (n_g, n_o, n_r) = (b.genes.len(), b.omim_diseases.len(), b.orpha_diseases.len());
+    let term = b.hpo_terms.get(tid(3)).unwrap();
+    let (tg, to, tr) = (term.genes().len(), term.omim_diseases().len(), term.orpha_diseases().len());
+    if ok {
+        let expect = match kind {
+            Kind::Gene => (1, 0, 0),
+            Kind::Omim => (0, 1, 0),
+            Kind::Orpha => (0, 0, 1),
+        };
+        assert!((n_g, n_o, n_r) == expect, "exactly one record of the addressed kind");
+        assert!((tg, to, tr) == expect, "the term is linked to it, kinds do not leak");
+        kani::cover!(true, "annotation accepted");
+    } else {
+        assert!((n_g, n_o, n_r) == (0, 0, 0), "rejected call creates no record");
+        assert!((tg, to, tr) == (0, 0, 0), "rejected call links nothing");
+        kani::cover!(true, "annotation rejected");
+    }
+    core::mem::forget(b);
+}
+
+#[kani::proof]
+#[kani::stub(std::hash::RandomState::new, stub_random_state)]
+#[kani::unwind(6)]
+fn c15_annotate_gene_present() {
+    annotate_h::<true>(Kind::Gene);
+}
+#[kani::proof]
+#[kani::stub(std::hash::RandomState::new, stub_random_state)]
+#[kani::unwind(6)]
+fn c15_annotate_gene_absent() {
+    annotate_h::<false>(Kind::Gene);
+}
+#[kani::proof]
+#[kani::stub(std::hash::RandomState::new, stub_random_state)]
+#[kani::unwind(6)]
+fn c15_annotate_omim_absent() {
+    annotate_h::<false>(Kind::Omim);
+}
+#[kani::proof]
+#[kani::stub(std::hash::RandomState::new, stub_random_state)]
+#[kani::unwind(6)]
+fn c15_annotate_orpha_absent() {
+    annotate_h::<false>(Kind::Orpha);
+}
+#[kani::proof]
+#[kani::stub(std::hash::RandomState::new, stub_random_state)]
+#[kani::unwind(6)]
+fn c15_annotate_orpha_present() {
+    annotate_h::<true>(Kind::Orpha);
+}
+
+#[kani::proof]
+#[kani::stub(std::hash::RandomState::new, stub_random_state)]
+#[kani::unwind(6)]
+fn c15_twin_must_fail() {
+    add_parent_h::<true, true>(false);
+    assert!(false, "twin: reachability witness");
+}
+#[kani::proof]
+#[kani::stub(std::hash::RandomState::new, stub_random_state)]
+#[kani::unwind(6)]
+fn c01_twin_must_fail() {
+    add_parent_h::<true, true>(true);
+    assert!(false, "twin: reachability witness");
+}
